@@ -293,6 +293,9 @@ def generate_code(u):
         # the lock covers every ID written (D10/D12: unless the lock write itself failed)
         ("C02.step", "%s.use_cache && !(final(w).alloc.dom() =~= Set::<Seq<char>>::empty()) ==> "
          "(final(w).fs.dom().contains(lock_path()) && final(w).fs[lock_path()] == lock_bytes(final(w).counter as u32)) || lock_write_failed()" % cfg),
+        # ... and strictly (no escape for a failed lock write): KNOWN FINDING, the write error is only logged and the run exits 0
+        ("C02.lockfail", "%s.use_cache && !(final(w).alloc.dom() =~= Set::<Seq<char>>::empty()) ==> "
+         "final(w).fs.dom().contains(lock_path()) && final(w).fs[lock_path()] == lock_bytes(final(w).counter as u32)" % cfg),
         ("C04.frame", "final(w).orig == old(w).orig && final(w).check_mode == old(w).check_mode && final(w).handlers == old(w).handlers"),
     ]
     # hints
